@@ -2,6 +2,8 @@
 // one response per stdout line.  All logic lives in gneiss_mqtt::verif (feature `verif`).
 use std::io::{BufRead, Write};
 
+mod drv;
+
 fn main() {
     gneiss_mqtt::verif::Session::install_quiet_panic_hook();
     let mut session = gneiss_mqtt::verif::Session::new();
@@ -18,6 +20,11 @@ fn main() {
         if trimmed == "session.reset" {
             session = gneiss_mqtt::verif::Session::new();
             let _ = writeln!(out, "res=ok");
+        } else if trimmed.starts_with("drv.") {
+            let (head, payload) = match trimmed.find(" | ") { Some(p) => (&trimmed[..p], &trimmed[p + 3..]), None => (trimmed, "") };
+            let result = std::panic::catch_unwind(|| drv::run(head, payload));
+            let response = match result { Ok(Ok(r)) => r, Ok(Err(e)) => format!("res=bad-request {}", e.replace('\n', " ")), Err(_) => "res=panic".to_string() };
+            let _ = writeln!(out, "{}", response);
         } else if trimmed.starts_with("aws.") {
             let (head, payload) = match trimmed.find(" | ") { Some(p) => (&trimmed[..p], &trimmed[p + 3..]), None => (trimmed, "") };
             let verb = head.split(' ').next().unwrap_or("");
